@@ -120,7 +120,12 @@ def check_mesh(ctx, mesh, kind, tag):
     for f, k in enumerate(fkeys):
         for v in k:
             ref[f, v] = 1
-    got = (p2f.toarray() != 0).astype(int)
+    raw = np.asarray(p2f.toarray())
+    got = (raw != 0).astype(int)
+    # entries are exactly 0/1 (an entity counted twice is a wrong table); the padded triangular facets of prisms repeat
+    # one vertex, so the value 2 is what the table honestly says there
+    ctx.check("incidence-matrices", set(np.unique(raw).tolist()) <= ({0, 1, 2} if kind == "wedge" else {0, 1}),
+              mech=f"p2f-values:{kind}", values=np.unique(raw).tolist(), kind=kind, case=tag)
     ctx.check("incidence-matrices", got.shape == ref.shape and np.array_equal(got, ref), mech=f"p2f:{kind}",
               kind=kind, case=tag)
     p2t = mesh.p2t
@@ -173,14 +178,14 @@ def check_mesh(ctx, mesh, kind, tag):
         ref = np.zeros((ne, nvert), dtype=int)
         for e, k in enumerate(ekeys):
             ref[e, list(k)] = 1
-        ctx.check("incidence-matrices", np.array_equal((mesh.p2e.toarray() != 0).astype(int), ref),
+        ctx.check("incidence-matrices", np.array_equal(np.asarray(mesh.p2e.toarray()), ref),
                   mech=f"p2e:{kind}", kind=kind, case=tag)
         e2t = mesh.e2t
         ref = np.zeros((topo.nt, ne), dtype=int)
         for e, k in enumerate(ekeys):
             for c, _ in topo.edge_cells[k]:
                 ref[c, e] = 1
-        ctx.check("incidence-matrices", np.array_equal((e2t.toarray() != 0).astype(int), ref),
+        ctx.check("incidence-matrices", np.array_equal(np.asarray(e2t.toarray()), ref),
                   mech=f"e2t:{kind}", kind=kind, case=tag)
         # f2e
         if mesh.bndelem is not None:
@@ -264,6 +269,96 @@ def gen_case(kind):
             if nontrivial:
                 ctx.nontrivial(type(m2c.mesh).__name__, ncomp, bool(mc.desc.get("holes")), True, mc.desc.get("style"))
     return fn
+
+
+LAZY = ("facets", "t2f", "f2t", "edges", "t2e", "f2e", "p2f", "p2t", "p2e", "e2t", "boundary_facets()", "boundary_nodes()",
+        "interior_nodes()", "boundary_edges()", "interior_edges()")
+
+
+def variants(ctx, k):
+    """Meshes the plain generators do not make: cavities and several components in quadrilateral / hexahedral / prism
+    meshes (also cells touching only at a vertex or an edge), triangles kept in the local order given, single-cell
+    meshes, points no cell uses; and the lazily built tables asked for in a random first order."""
+    import skfem
+    rng = ctx.rng()
+    which = ("cavity-quad", "cavity-hex", "cavity-wedge", "unsorted-tri", "single-cell", "unused-points", "access-order")[k % 7]
+    if which.startswith("cavity"):
+        kind = which.split("-")[1]
+        for _ in range(20):
+            mc = G.first_order(rng, kind)
+            p, t = np.asarray(mc.mesh.p), np.asarray(mc.mesh.t).astype(np.int64)
+            nt = t.shape[1]
+            if nt < 6:
+                continue
+            drop = rng.random(nt) < rng.uniform(0.15, 0.5)
+            drop[rng.integers(nt)] = True
+            keep = np.nonzero(~drop)[0]
+            if keep.size < 2:
+                continue
+            p2, t2 = G.clean(p, t[:, keep])
+            mesh = type(mc.mesh)(p2, t2)
+            topo, _ = check_mesh(ctx, mesh, kind, dict(mc.desc, variant=which, removed=int(drop.sum())))
+            if topo.components() > 1:
+                ctx.reached("several-components")
+            ctx.reached("cavities-in-tensor-type-meshes")
+            ctx.nontrivial(type(mesh).__name__, which, topo.components())
+            return
+        raise Skip("no-mesh-large-enough")
+    if which == "unsorted-tri":
+        mc = G.tri_mesh(rng)
+        p, t = np.asarray(mc.mesh.p), np.asarray(mc.mesh.t).astype(np.int64)
+        for c in range(t.shape[1]):
+            t[:, c] = t[rng.permutation(3), c]
+        mesh = skfem.MeshTri1(p, t, sort_t=False)
+        if not np.array_equal(np.asarray(mesh.t), t):
+            raise Skip("constructor-resorted")
+        check_mesh(ctx, mesh, "tri", dict(mc.desc, variant=which))
+        mo = G.tri_mesh(rng).mesh.oriented()
+        check_mesh(ctx, mo, "tri", {"gen": "tri", "variant": "oriented()"})
+        ctx.reached("triangles-in-given-local-order")
+        ctx.nontrivial("MeshTri1", which)
+        return
+    if which == "single-cell":
+        for cls, kind in ((skfem.MeshLine1, "line"), (skfem.MeshTri1, "tri"), (skfem.MeshQuad1, "quad"), (skfem.MeshTet1, "tet"),
+                          (skfem.MeshHex1, "hex"), (skfem.MeshWedge1, "wedge")):
+            mesh = cls.init_refdom()
+            check_mesh(ctx, mesh, kind, {"gen": kind, "variant": "init_refdom"})
+        ctx.reached("single-cell-meshes")
+        ctx.nontrivial("single-cell")
+        return
+    if which == "unused-points":
+        kind = str(rng.choice(["tri", "quad", "tet", "hex"]))
+        mc = G.first_order(rng, kind)
+        p, t = np.asarray(mc.mesh.p), np.asarray(mc.mesh.t).astype(np.int64)
+        mid = int(rng.integers(1, p.shape[1]))
+        p2 = np.hstack([p[:, :mid], p[:, :1] + 17.0, p[:, mid:], p[:, :1] - 23.0])     # one interior, one trailing unused point
+        t2 = np.where(t >= mid, t + 1, t)
+        mesh = type(mc.mesh)(p2, t2)
+        check_mesh(ctx, mesh, kind, dict(mc.desc, variant=which))
+        ctx.reached("points-no-cell-uses")
+        ctx.nontrivial(type(mesh).__name__, which)
+        return
+    # access-order: every table read first on a fresh equal mesh equals the table of the reference build
+    kind = str(rng.choice(["tri", "quad", "tet", "hex", "wedge"]))
+    mc = G.first_order(rng, kind)
+    p, t = np.asarray(mc.mesh.p), np.asarray(mc.mesh.t)
+    names = [n for n in LAZY if not (("edge" in n or n in ("t2e", "f2e", "p2e", "e2t")) and mc.dim < 3)
+             and not (n == "f2e" and kind == "wedge")]        # prisms have no single boundary reference cell: no f2e
+
+    def read(m, n):
+        v = getattr(m, n[:-2])() if n.endswith("()") else getattr(m, n)
+        return np.asarray(v.toarray()) if hasattr(v, "toarray") else np.asarray(v)
+    ref = type(mc.mesh)(p.copy(), t.copy())
+    refv = {n: read(ref, n) for n in names}
+    for _ in range(3):
+        m = type(mc.mesh)(p.copy(), t.copy())
+        order = [names[i] for i in rng.permutation(len(names))]
+        for n in order:
+            v = read(m, n)
+            ctx.check("renumbering-invariance", v.shape == refv[n].shape and np.array_equal(v, refv[n]),
+                      mech=f"table-depends-on-first-access-order:{n}", first=order[:3], kind=kind)
+    ctx.reached("tables-in-random-first-access-order")
+    ctx.nontrivial(type(mc.mesh).__name__, which)
 
 
 def after_operations(ctx, k):
@@ -367,5 +462,8 @@ FAMILIES = [Family("gen-" + kd, gen_case(kd), quick=q, thorough=th)
                               ("hex", 20, 640), ("wedge", 14, 480))]
 FAMILIES.append(Family("after-operations", after_operations, 30, 900))
 FAMILIES.append(Family("periodic", periodic_case, 16, 320))
+FAMILIES.append(Family("variants", variants, 28, 840))
 FAMILIES.append(Family("docs-meshes", docs_meshes, 1, 1, budget={"quick": 60, "thorough": 120}))
-REQUIRED_REACH = ["several-components", "f2e-checked", "docs-meshes-loaded", "rechecked-after-operations", "periodic-topology"]
+REQUIRED_REACH = ["several-components", "f2e-checked", "docs-meshes-loaded", "rechecked-after-operations", "periodic-topology",
+                  "cavities-in-tensor-type-meshes", "triangles-in-given-local-order", "single-cell-meshes", "points-no-cell-uses",
+                  "tables-in-random-first-access-order", "wedge-shifted-local-order"]
